@@ -5,13 +5,17 @@ history property Deterministic; abstract first-writer-wins translator table mode
 universe of (class object, typed parameter) kinds and four name functions, TLC's NoAlias verdict must
 agree with `name function injective on bodies`), spec/ModuleTableTrace.tla (validation of recorded
 tables).  code -> spec: every design of a corpus (repo test-case DUTs, stdlib RTL, examples, designs
-built to collide) is translated in fresh subprocesses, one per PYTHONHASHSEED (4 quick / 16 thorough),
-by the SystemVerilog and the yosys back end; events (design, seed, back end, sha256 of the text), the
-module table parsed from the text by harness/modtable.py (own tokeniser, independent of pymtl3 and of
+built to collide) is translated in fresh subprocesses, one per PYTHONHASHSEED (16 thorough; quick: 4 for
+the examples, stdlib, parameter/hash collision designs and a third of the repo DUTs, 2 for the rest; 4 / 2
+for a design both back ends refuse), by the SystemVerilog and the yosys back end; events (design, seed,
+back end, sha256 of the text), the module table parsed from the text by harness/modtable.py (own tokeniser, independent of pymtl3 and of
 svparse.py), and for every component instance the definitions obtained by translating that instance
 ALONE (fresh build, only that component enabled) are validated by TLC.  Canaries corrupt digests,
 duplicate modules, undefine instantiated modules, inject reserved / duplicate / illegal identifiers and
 alias two instances; each must be rejected.
+
+Violation keys are `<clause>:<root cause>:<design>` (one per root cause and design, the back end is part
+of the key only where the cause is specific to one back end).
 
 NOTE: Body(x) is the token sequence of `module .. endmodule` of x's own module in the translation of x
 alone (comments and white space removed, because comments carry source paths and line numbers), plus
@@ -28,7 +32,8 @@ import os
 import re
 import subprocess
 import sys
-from concurrent.futures import ThreadPoolExecutor
+import time
+from concurrent.futures import FIRST_COMPLETED, ThreadPoolExecutor, wait
 
 import c13_corpus
 import common
@@ -131,9 +136,14 @@ def _run_worker(job):
 
 
 def _digest(r):
+    """digest of the emitted text.  A refusal emits no text: every refusal is the same observation
+    (the statement is about the text; which exception reports a refusal is outside it -- e.g.
+    CaseExtSliceComp cannot even be constructed and fails with AssertionError at the first attempt of
+    a process, with PyMTLSyntaxError at later ones).  Text in one run and a refusal in another is a
+    difference."""
     if r["ok"]:
         return hashlib.sha256(r["text"].encode("utf-8", "surrogatepass")).hexdigest()
-    return "ERR:" + r["error"]
+    return "ERR:refused"
 
 
 def _ident(name):
@@ -222,9 +232,12 @@ def _build_trace(d, outs, seeds):
             if not top:
                 pi = alone.get(ent["parent"])
                 if pi is not None and pi[0] in pi[2].modules:
-                    for iname, m in pi[2].modules[pi[0]]["insts"]:
-                        if iname == ent["iname"]:
-                            site = m
+                    # the module(s) instantiated under this instance name in the parent's text.  An
+                    # instance name declared twice is a violation of its own (IdentUnique); the site
+                    # clause then only asks that ONE of the sites instantiates this instance's module.
+                    cand = [m for iname, m in pi[2].modules[pi[0]]["insts"] if iname == ent["iname"]]
+                    if cand:
+                        site = mod if mod in cand else cand[-1]
             ev.append({"k": "inst", "path": ent["path"], "mod": mod, "site": site, "top": top,
                        "uses": uses, "b": b})
         ev.append({"k": "close", "b": b})
@@ -249,29 +262,39 @@ def _module_text(text, mod):
 
 
 def _classify_alias(d, b, ent_a, ent_b, name):
-    """key + description for two instances that share module name `name` with different bodies."""
+    """key + description for two instances that share module name `name` with different bodies.
+    One key per (root cause, design): the back end is not part of the key (the name function is
+    shared by both back ends)."""
     pa, pb = ent_a["params"], ent_b["params"]
+    did = d["id"]
     if ent_a["cls_ix"] != ent_b["cls_ix"]:
         if ent_a["cls_name"] == ent_b["cls_name"]:
-            return ("alias:same-class-name-different-body",
-                    "two different classes both named %s (%s / %s)" % (ent_a["cls_name"], ent_a["cls_qual"], ent_b["cls_qual"]))
-        return ("alias:different-class-names-same-module-name",
-                "classes %s and %s (name/parameter concatenation is ambiguous)" % (ent_a["cls_name"], ent_b["cls_name"]))
+            return ("alias:same-class-name:%s" % did,
+                    "two different classes both named %s (%s in %s / %s in %s); the module name is built from "
+                    "__name__ only" % (ent_a["cls_name"], ent_a["cls_qual"], os.path.basename(ent_a["cls_file"] or "?"),
+                                       ent_b["cls_qual"], os.path.basename(ent_b["cls_file"] or "?")))
+        return ("alias:name-concatenation:%s" % did,
+                "classes %s and %s (class name and parameter strings are concatenated without an "
+                "unambiguous separator)" % (ent_a["cls_name"], ent_b["cls_name"]))
     if [(p[0], p[1], p[2]) for p in pa] == [(p[0], p[1], p[2]) for p in pb]:
         ta = _module_text(ent_a["alone"][b]["text"], name)
         tb = _module_text(ent_b["alone"][b]["text"], name)
         df = _tok_diff(ta, tb)
         if df and all(x.startswith("_lambda__") and y.startswith("_lambda__") for x, y in df):
-            return ("alias:lambda-block-label-embeds-instance-path",
+            return ("alias:lambda-block-label:%s" % did,
                     "same class and parameters; the bodies differ only in the label of the block generated "
                     "for `//= lambda` (%s vs %s), which embeds the instance's hierarchical name" % df[0])
-        return ("alias:same-class-same-params-different-body",
+        return ("alias:same-class-same-params:%s" % did,
                 "same class %s, same construct() arguments, different hardware" % ent_a["cls_name"])
     if [(p[0], p[3]) for p in pa] == [(p[0], p[3]) for p in pb]:
         dif = [(x[0], x[1] + ":" + x[2], y[1] + ":" + y[2]) for x, y in zip(pa, pb) if x[:3] != y[:3]]
-        return ("alias:param-str-ambiguity",
-                "same class %s; parameters print identically but differ: %s" % (ent_a["cls_name"], dif))
-    return ("alias:same-class-different-params:%s" % d["id"],
+        if dif and all(x[1].startswith("bitstruct-class:") and x[2].startswith("bitstruct-class:") for x in dif):
+            return ("alias:typedef-name:as-module-parameter:%s" % did,
+                    "same class %s; the parameters are two different bitstruct classes whose generated struct "
+                    "names coincide: %s" % (ent_a["cls_name"], dif))
+        return ("alias:param-str:%s" % did,
+                "same class %s; parameters print identically (str) but differ: %s" % (ent_a["cls_name"], dif))
+    return ("alias:same-class-different-params:%s" % did,
             "same class %s, parameters %s vs %s" % (ent_a["cls_name"], pa, pb))
 
 
@@ -291,17 +314,17 @@ def _report(res, d, outs, trace, info, clause, pos):
         b = e["b"]
         first = next(x for x in trace["ev"] if x["k"] == "obs" and x["b"] == b)
         kind = "again-in-same-process" if e["seed"].endswith(":again") else "hashseed"
-        key = "nondet:%s:%s:%s" % (kind, did, b)
+        key = "nondet:%s:%s" % (kind, did)
         what = ("%s back end: text of design %s under PYTHONHASHSEED=%s differs from PYTHONHASHSEED=%s"
                 % (b, did, e["seed"], first["seed"]))
         # diagnose hashed module names fed by unstable parameter strings
         pr = [p for x in outs[0]["insts"] for p in x["params"]]
         if e["dg"].startswith("ERR:") != first["dg"].startswith("ERR:"):
-            key = "nondet:outcome:%s:%s" % (did, b)
+            key = "nondet:outcome:%s" % did
         elif any(re.search(r" at 0x[0-9a-f]+>", p[3]) for p in pr):
-            key, what = "nondet:param-str-embeds-object-address", what + " (a construct() argument prints as <... at 0x...>; the hashed module name follows the address)"
+            key, what = "nondet:param-str:object-address:%s" % did, what + " (a construct() argument prints as <... at 0x...>; the hashed module name follows the address)"
         elif any(p[1] in ("set", "frozenset") for p in pr):
-            key, what = "nondet:set-valued-parameter-order", what + " (a construct() argument is a set; its printed order follows the hash seed)"
+            key, what = "nondet:param-str:set-order:%s" % did, what + " (a construct() argument is a set; its printed order follows the hash seed)"
         res.violation(key, what, {"design": did, "event": e, "first": first, "source": open(d["file"]).read()})
         return
     b = e.get("b")
@@ -317,31 +340,66 @@ def _report(res, d, outs, trace, info, clause, pos):
                       "%s back end, design %s: %s %s is defined more than once" % (b, did, e["kind"], e["name"]["s"]),
                       {"design": did, "source": src})
     elif clause in ("IdentLegal", "IdentReserved", "IdentUnique"):
-        names = [("%s-name" % e["kind"], e["name"]["s"], "$defs")]
+        tab = info["tables"][b]
+
+        def ncls(sc, n):
+            if sc == "$defs":
+                return "%s-name" % e["kind"]
+            if sc.startswith("T:"):
+                return "field"
+            ks = set(tab.kinds.get((sc, n), []))
+            return "+".join(k for k in ("port", "inst", "block", "loopvar", "var") if k in ks) or "name"
+
+        names = [(ncls("$defs", e["name"]["s"]), e["name"]["s"], "$defs")]
         for sc in e["scopes"]:
             for x in sc["ids"]:
-                names.append(("field" if sc["sc"].startswith("T:") else "signal-or-instance-or-block", x["s"], sc["sc"]))
+                names.append((ncls(sc["sc"], x["s"]), x["s"], sc["sc"]))
+        # one key per (root cause, design); the back end is not part of the key where the cause is shared
+        groups = collections.OrderedDict()
         if clause == "IdentLegal":
             for cls, n, sc in names:
-                if not modtable.IDENT_RE.match(n):
-                    res.violation("ident:illegal:%s:%s" % (cls, _illegal_chars(n)),
-                                  "%s back end, design %s: `%s` (scope %s) is not a legal identifier" % (b, did, n, sc),
-                                  {"design": did, "name": n, "scope": sc, "source": src})
+                if modtable.IDENT_RE.match(n):
+                    continue
+                if not n.isascii():
+                    k = "ident:illegal:non-ascii:%s:%s" % (cls, did)
+                elif cls == "module-name" and re.match(r"[A-Za-z_][A-Za-z0-9_$]*?__[A-Za-z_][A-Za-z0-9_$]*?_", n):
+                    # <Class>__<param>_<str(value)>: the illegal characters come from the parameter string
+                    k = "ident:illegal:module-name:param-str:%s" % did
+                else:
+                    k = "ident:illegal:%s:%s:%s" % (cls, _illegal_chars(n), did)
+                groups.setdefault(k, []).append((n, sc))
+            for k, v in groups.items():
+                res.violation(k, "%s back end, design %s: not legal identifiers: %s"
+                              % (b, did, ", ".join("`%s` (scope %s)" % x for x in v[:8])),
+                              {"design": did, "names": v, "source": src})
         elif clause == "IdentReserved":
             for cls, n, sc in names:
                 if n in modtable._KW:
                     gen = "sv2009+" if n in modtable.KEYWORDS_1800_2009_2012 else "upto-sv2005"
-                    res.violation("ident:reserved:%s:%s:%s" % (gen, cls, n),
-                                  "%s back end, design %s: reserved word `%s` emitted as an identifier (scope %s)" % (b, did, n, sc),
-                                  {"design": did, "name": n, "scope": sc, "source": src})
+                    groups.setdefault("ident:reserved:%s:%s:%s" % (gen, cls, did), []).append((n, sc))
+            for k, v in groups.items():
+                res.violation(k, "%s back end, design %s: reserved words emitted as identifiers: %s"
+                              % (b, did, ", ".join("`%s` (scope %s)" % x for x in v[:40])),
+                              {"design": did, "names": v, "source": src})
         else:
             for sc in e["scopes"]:
                 c = collections.Counter(x["s"] for x in sc["ids"])
                 for n, k in sorted(c.items()):
                     if k > 1:
-                        res.violation("ident:duplicate:%s:%s:%s" % (did, b, n),
-                                      "%s back end, design %s: identifier `%s` declared %d times in scope %s" % (b, did, n, k, sc["sc"]),
-                                      {"design": did, "name": n, "scope": sc["sc"], "source": src})
+                        kinds = tab.kinds.get((sc["sc"], n), [])
+                        if n.startswith("__tmpvar__"):
+                            mech = "tmpvar-name-concatenation"
+                        elif "block" in kinds and len(set(kinds)) > 1:
+                            mech = "block-label-vs-signal"
+                        elif "__" in n.strip("_"):
+                            mech = "flattened-name-double-underscore"
+                        else:
+                            mech = "other:%s:%s" % (b, n)
+                        groups.setdefault("ident:duplicate:%s:%s" % (mech, did), []).append(
+                            "`%s` declared %d times (%s) in scope %s" % (n, k, "/".join(kinds), sc["sc"]))
+            for k, v in groups.items():
+                res.violation(k, "%s back end, design %s: %s" % (b, did, "; ".join(v[:8])),
+                              {"design": did, "duplicates": v, "source": src})
     elif clause in ("NoAlias", "NoAliasType"):
         kind = "module" if clause == "NoAlias" else "typedef"
         mine = {u["name"]: u["dg"] for u in e["uses"] if u["kind"] == kind}
@@ -360,7 +418,7 @@ def _report(res, d, outs, trace, info, clause, pos):
                         ta = info["alone"][b][x["path"]][2].typedefs[u["name"]]
                         tb = info["alone"][b][e["path"]][2].typedefs[u["name"]]
                         sub = "fields-differ" if ta["fields"] != tb["fields"] else "field-types-differ"
-                        key = "alias:bitstruct-typedef-name:%s" % sub
+                        key = "alias:typedef-name:%s:%s" % (sub, did)
                         what = ("%s back end, design %s: instances %s and %s use struct typedef %s with different "
                                 "definitions (fields %s vs %s); one typedef is emitted"
                                 % (b, did, x["path"], e["path"], u["name"], ta["fields"], tb["fields"]))
@@ -376,11 +434,19 @@ def _report(res, d, outs, trace, info, clause, pos):
         ent = ents[e["path"]]
         par = ents.get(ent["parent"])
         pm = info["alone"][b].get(ent["parent"])
+        path0 = re.sub(r"(\[\d+\])+$", lambda m: re.sub(r"\d+", "0", m.group(0)), e["path"])
+        first = info["alone"][b].get(path0)
         if par and pm and pm[0] == e["mod"] and par["cls_name"] == ent["cls_name"] and par["cls_ix"] != ent["cls_ix"]:
-            res.violation("alias:parent-and-child-same-class-name",
+            res.violation("alias:same-class-name:%s" % did,
                           "%s back end, design %s: %s (class %s) contains %s of a different class with the same "
-                          "name; both map to module %s, the child's definition is emitted and the parent's is dropped"
+                          "__name__; both map to module %s, the child's definition is emitted and the parent's is dropped"
                           % (b, did, ent["parent"], par["cls_qual"], e["path"], e["mod"]),
+                          {"design": did, "source": src})
+        elif b == "yosys" and path0 != e["path"] and first and first[0] == e["site"]:
+            res.violation("inst-site:yosys-array-element-named-after-element-0:%s" % did,
+                          "yosys back end, design %s: array element %s is translated to module %s but its parent's "
+                          "text instantiates %r (the module of element %s) there"
+                          % (did, e["path"], e["mod"], e["site"], path0),
                           {"design": did, "source": src})
         else:
             res.violation("inst-site:%s:%s:%s" % (did, b, e["path"]),
@@ -524,21 +590,97 @@ def _canaries(res, traces, fails, texts):
     res.note("canaries_rejected", len(can))
 
 
+class _Recorder:
+    """records Result calls made on another thread"""
+    def __init__(self):
+        self.calls = []
+
+    def __getattr__(self, name):
+        return lambda *a: self.calls.append((name, a))
+
+    def replay(self, res):
+        for name, a in self.calls:
+            getattr(res, name)(*a)
+
+
+QUICK_SEEDS_FULL = 4      # hash seeds per design of the seed-sensitive set in the quick tier
+QUICK_SEEDS_REST = 2      # ... and for every other design (seed 0 and 1; the last one is repeated in-process)
+
+
+def _seed_sensitive(d, k):
+    """quick tier: designs that get all QUICK_SEEDS_FULL hash seeds -- the examples and stdlib
+    components (large hierarchies: sets / dicts of connections, blocks, signals), the built-to-collide
+    designs about parameter strings and hashed names, and every third repo test-case DUT.  All other
+    designs are still translated under two hash seeds and twice in one process."""
+    if d["group"] in ("example", "stdlib"):
+        return True
+    if d["group"] == "collide":
+        return d["id"].split("_")[0] in ("hash", "parstr", "par", "arg", "beh", "bs")
+    return k % 3 == 0
+
+
 def run(res, tier):
     quick = tier == "quick"
-    nseeds = 4 if quick else 16
-    _model_check(res, quick)
+    nseeds = QUICK_SEEDS_FULL if quick else 16
+    t0 = time.time()
+    rec = _Recorder()
+    with ThreadPoolExecutor(max_workers=1) as mex:
+        # the abstract model is checked while the translation subprocesses run (Result is not
+        # thread-safe: the model check records into `rec`, replayed below on this thread)
+        model = mex.submit(_model_check, rec, quick)
+        try:
+            _explore(res, tier, quick, nseeds)
+        finally:
+            model.result()
+            rec.replay(res)
+    res.note("wall_total_s", round(time.time() - t0, 1))
+
+
+def _explore(res, tier, quick, nseeds):
     seeds = _seeds(nseeds)
     R = common.rng("c13-corpus")
+    t0 = time.time()
     with common.scratch("verif_c13_") as sd:
         designs = c13_corpus.write(os.path.join(sd, "designs"), common.REPO, tier, R)
         rundir = os.path.join(sd, "run")
-        jobs = []
-        for d in designs:
-            for si, seed in enumerate(seeds):
-                jobs.append((d, si, seed, rundir, si == 0, si == nseeds - 1))
+        # the job under the first seed also translates every instance alone; when it is back the other
+        # seeds of the design are submitted -- fewer of them for a design both back ends refuse (it
+        # contributes only `refused every time`)
+        refused_seeds = QUICK_SEEDS_REST if quick else 4
+        plan = {d["id"]: (nseeds if (not quick or _seed_sensitive(d, k)) else QUICK_SEEDS_REST)
+                for k, d in enumerate(designs)}
+        first = sorted(designs, key=lambda d: (d["group"] != "example", d["group"] != "stdlib"))   # longest first
+        jobs, outs = [], []
         with ThreadPoolExecutor(max_workers=os.cpu_count() or 4) as ex:
-            outs = list(ex.map(_run_worker, jobs))
+            fut = {}
+            for d in first:
+                job = (d, 0, seeds[0], rundir, True, False)
+                fut[ex.submit(_run_worker, job)] = job
+            pending = set(fut)
+            while pending:
+                done, pending = wait(pending, return_when=FIRST_COMPLETED)
+                for f in done:
+                    job = fut[f]
+                    o = f.result()
+                    jobs.append(job)
+                    outs.append(o)
+                    if job[1] == 0:
+                        d = job[0]
+                        n = plan[d["id"]]
+                        if not any(o["results"][b]["ok"] for b in BACKENDS):
+                            n = plan[d["id"]] = min(n, refused_seeds)
+                        for si in range(1, n):
+                            j2 = (d, si, seeds[si], rundir, False, si == n - 1)
+                            f2 = ex.submit(_run_worker, j2)
+                            fut[f2] = j2
+                            pending.add(f2)
+        ix = {d["id"]: k for k, d in enumerate(designs)}
+        order = sorted(range(len(jobs)), key=lambda i: (ix[jobs[i][0]["id"]], jobs[i][1]))
+        jobs = [jobs[i] for i in order]
+        outs = [outs[i] for i in order]
+        res.note("wall_subprocesses_s", round(time.time() - t0, 1))
+        cpu = sorted(((o.get("cpu_s", 0), j[0]["id"]) for j, o in zip(jobs, outs)), reverse=True)
+        res.note("worker_cpu_s", {"total": round(sum(c for c, _ in cpu), 1), "largest": cpu[:3]})
         by_design = collections.OrderedDict()
         for (d, si, seed, _, _, _), o in zip(jobs, outs):
             by_design.setdefault(d["id"], []).append(o)
@@ -614,9 +756,12 @@ def run(res, tier):
     res.note("component_instances_translated_alone", n_inst)
     res.note("subprocesses", len(jobs))
     res.note("rule", "one case = (design, back end) whose translation succeeds; each design is translated in %d fresh "
-             "subprocesses (distinct PYTHONHASHSEED, alternating back-end order, once more in the same process for the "
+             "subprocesses%s (distinct PYTHONHASHSEED, alternating back-end order, once more in the same process for the "
              "last seed) by both back ends; every component instance of every design is translated alone; non-trivial "
-             "= the text parses into a module table with at least one module" % nseeds)
+             "= the text parses into a module table with at least one module"
+             % (nseeds, (" (quick tier: %d for the designs outside the seed-sensitive set, see _seed_sensitive)"
+                         % QUICK_SEEDS_REST if quick else "") + " (%d for a design both back ends refuse)" % refused_seeds))
+    res.note("designs_by_number_of_seeds", dict(collections.Counter(str(v) for v in plan.values())))
     res.assume("a design pymtl3 refuses to translate contributes only its (deterministic) refusal")
     res.assume("bodies are compared as token sequences (comments carry source paths / line numbers)")
     res.assume("memory addresses of objects are not controlled: nondeterminism through id()/repr addresses is only "
